@@ -98,15 +98,15 @@ def run(ctx, col, tier):
                         "file-system behaviour"]
 
     names_cls, fields = names_fields(ctx)
-    r_table(ctx, col, names_cls, fields)
+    col.guard(r_table, ctx, col, names_cls, fields)
     reader_pat = r_fmt(ctx, col, fields, tier)
-    r_nl(ctx, col)
-    r_hdr(ctx, col, names_cls, reader_pat)
-    r_sent(ctx, col, names_cls)
-    r_src(ctx, col)
-    r_once(ctx, col)
-    r_pure(ctx, col)
-    r_capture(ctx, col)
+    col.guard(r_nl, ctx, col)
+    col.guard(r_hdr, ctx, col, names_cls, reader_pat)
+    col.guard(r_sent, ctx, col, names_cls)
+    col.guard(r_src, ctx, col)
+    col.guard(r_once, ctx, col)
+    col.guard(r_pure, ctx, col)
+    col.guard(r_capture, ctx, col)
     from ..rules import rootcmp
     rootcmp.check(ctx, col, "R-ROOTCMP", ("swcgeom.core.swc_utils.io", "swcgeom.core.swc_utils.normalizer",
                                            "swcgeom.core.swc_utils.base", "swcgeom.core.tree", "swcgeom.core.swc"))
